@@ -29,16 +29,19 @@ def check_cache_guard(ctx, R="C20.guard"):
             checks.append(n.test)
 
     def implied(test, atoms):
-        """the raising test is definitely true when the mismatch atoms hold (three-valued evaluation)"""
-        env = {}
-        for a in atoms:
-            env[a] = True
-        return lib.tri_eval(test, env) is True
+        """the raising test is definitely true when the mismatch atoms hold (three-valued evaluation over role texts:
+        locals are replaced by what they are bound to, so their names do not matter)"""
+        rt = ast.parse(lib.role_text(fp, test), mode="eval").body
+        env = {lib.role_text(None, a): True for a in atoms}
+        return lib.tri_eval(rt, env) is True
 
+    pathp = fp.args.args[1].arg
+    od_p, op_p = fp.args.args[2].arg, fp.args.args[3].arg
+    rd = lambda k: f"open({pathp}, 'rb').read({k})"
     need = {
-        "version": [["version[0] != cls._currentFormatVersion()"], ["cls._currentFormatVersion() != version[0]"]],
-        "map digest": [["originalDigest", "originalDigest != digest"], ["originalDigest", "digest != originalDigest"]],
-        "options digest": [["optionsDigest", "optionsDigest != cachedOptionsDigest"], ["optionsDigest", "cachedOptionsDigest != optionsDigest"]],
+        "version": [[f"struct.unpack('<I', {rd(4)})[0] != cls._currentFormatVersion()"]],
+        "map digest": [[od_p, f"{od_p} != {rd(64)}"]],
+        "options digest": [[op_p, f"{op_p} != {rd(8)}"]],
     }
     for name, alts in need.items():
         if any(implied(t_, atoms) for t_ in checks for atoms in alts):
@@ -46,11 +49,17 @@ def check_cache_guard(ctx, R="C20.guard"):
         else:
             ctx.finding(R, ld, f"fromPickle lacks {name} check", f"Network.fromPickle reaches pickle.load without a raising `{name}` comparison before it: a stale or foreign cache is loaded as if it matched the map")
     ff = model.func(RD, "Network.fromFile")
-    t = unparse(ff)
-    env = {n.targets[0].id: n.value for n in walk_local(ff) if isinstance(n, ast.Assign) and isinstance(n.targets[0], ast.Name)}
-    dg, og = env.get("digest"), env.get("optionsDigest")
-    ok_d = dg is not None and unparse(dg) == "hashlib.blake2b(data).digest()" and "data = f.read()" in t and "open(path, 'rb')" in t
-    ok_o = og is not None and isinstance(og, ast.Call) and dotted(og.func) == "deterministicHash" and unparse(og.args[0]) == "kwargs"
+    fpath = ff.args.args[1].arg
+    kwp = ff.args.kwarg.arg if ff.args.kwarg else None
+    if kwp is None:
+        raise AnalysisError("shape not recognised: Network.fromFile has no **kwargs")
+    MAPD = lib.role_text(None, f"hashlib.blake2b(open({fpath}, 'rb').read()).digest()")
+    dgs = lib.locals_assigned(ff, lambda v: "blake2b" in unparse(v))
+    ogs = lib.locals_assigned(ff, lambda v: isinstance(v, ast.Call) and dotted(v.func) == "deterministicHash")
+    dg = lib.local_value(ff, dgs[0]) if len(dgs) == 1 else None
+    og = lib.local_value(ff, ogs[0]) if len(ogs) == 1 else None
+    ok_d = dg is not None and lib.role_text(ff, dg) == MAPD
+    ok_o = og is not None and og.args and unparse(og.args[0]) == kwp
     if ok_d:
         ctx.ok(R, dg, "the map digest is blake2b of the map file's bytes")
     else:
@@ -59,8 +68,9 @@ def check_cache_guard(ctx, R="C20.guard"):
         ctx.ok(R, og, "the options digest covers all keyword options (kwargs)")
     else:
         ctx.finding(R, ff, "options digest source", "Network.fromFile no longer computes the options digest from all of **kwargs: changing an option may reuse a cache built with other options")
+    OPTD = lib.role_text(ff, og) if og is not None else None
     calls = [c for c in ast.walk(ff) if isinstance(c, ast.Call) and unparse(c.func) == "cls.fromPickle" and c.keywords]
-    if calls and {k.arg: unparse(k.value) for k in calls[0].keywords} == {"originalDigest": "digest", "optionsDigest": "optionsDigest"}:
+    if calls and {k.arg: lib.role_text(ff, k.value) for k in calls[0].keywords} == {od_p: MAPD, op_p: OPTD}:
         ctx.ok(R, calls[0], "both digests are handed to fromPickle")
     else:
         ctx.finding(R, ff, "digests passed to fromPickle", "Network.fromFile does not pass originalDigest=digest and optionsDigest=optionsDigest to fromPickle")
@@ -70,18 +80,37 @@ def check_cache_guard(ctx, R="C20.guard"):
         hs = {unparse(h.type): h for h in tr.handlers if h.type is not None}
         if {"pickle.UnpicklingError", "cls.DigestMismatchError"} <= set(hs) and not any(isinstance(x, (ast.Return, ast.Raise)) for h in hs.values() for x in ast.walk(h)):
             good = True
-    if good and "network = handlers[ext](path, **kwargs)" in t:
+    # the parse with the given options: <handler>(path, **kwargs) outside the try
+    parses = [
+        c
+        for c in walk_local(ff)
+        if isinstance(c, ast.Call)
+        and isinstance(c.func, ast.Subscript)
+        and c.args
+        and unparse(c.args[0]) == fpath
+        and any(k.arg is None and unparse(k.value) == kwp for k in c.keywords)
+        and not any(isinstance(a, ast.Try) for a in ancestors(c))
+    ]
+    if good and parses:
         ctx.ok(R, ff, "a stale / mismatching / corrupted cache is ignored and the map is parsed with the given options")
     else:
         ctx.finding(R, ff, "cache fallback", "Network.fromFile no longer falls back to parsing when the cache is outdated (UnpicklingError / DigestMismatchError must both be caught without returning)")
     # the same digests are written with the cache
-    dp = [c for c in ast.walk(ff) if isinstance(c, ast.Call) and unparse(c.func) == "network.dumpPickle"]
+    dp = [c for c in ast.walk(ff) if isinstance(c, ast.Call) and isinstance(c.func, ast.Attribute) and c.func.attr == "dumpPickle"]
     if dp:
-        args = [unparse(a) for a in dp[0].args] + [f"{k.arg}={unparse(k.value)}" for k in dp[0].keywords]
-        if "digest" in args and "optionsDigest=optionsDigest" in args:
+        dpf = model.func(RD, "Network.dumpPickle")
+        dparams = [a.arg for a in dpf.args.args][1:]
+        bound = {}
+        for i, a in enumerate(dp[0].args):
+            if i < len(dparams):
+                bound[dparams[i]] = lib.role_text(ff, a)
+        for k in dp[0].keywords:
+            if k.arg:
+                bound[k.arg] = lib.role_text(ff, k.value)
+        if len(dparams) >= 3 and bound.get(dparams[1]) == MAPD and bound.get(dparams[2]) == OPTD:
             ctx.ok(R, dp[0], "the cache is written with the digests it will be checked against")
         else:
-            ctx.finding(R, dp[0], "dumpPickle digests", f"Network.fromFile writes the cache with {args}, not with (digest, optionsDigest)")
+            ctx.finding(R, dp[0], "dumpPickle digests", f"Network.fromFile writes the cache with {bound}, not with (map digest, options digest)")
 
 
 def check_layout(ctx, R="C20.layout"):
@@ -94,9 +123,12 @@ def check_layout(ctx, R="C20.layout"):
     model = ctx.model
     dp = model.func(RD, "Network.dumpPickle")
     fp = model.func(RD, "Network.fromPickle")
-    writes = [unparse(c.args[0]) for c in sorted([c for c in ast.walk(dp) if isinstance(c, ast.Call) and unparse(c.func) == "f.write"], key=lambda c: c.lineno)]
-    reads = [(lib.const(c.args[0]), lib.statement_of(c)) for c in sorted([c for c in ast.walk(fp) if isinstance(c, ast.Call) and unparse(c.func) == "f.read"], key=lambda c: c.lineno)]
-    if writes == ["version", "digest", "optionsDigest"]:
+    wf = set(lib.with_vars(dp, lambda e: isinstance(e, ast.Call) and dotted(e.func) == "open"))
+    rf = set(lib.with_vars(fp, lambda e: isinstance(e, ast.Call) and dotted(e.func) == "open"))
+    writes = [lib.role_text(dp, c.args[0]) for c in sorted([c for c in ast.walk(dp) if isinstance(c, ast.Call) and isinstance(c.func, ast.Attribute) and c.func.attr == "write" and unparse(c.func.value) in wf], key=lambda c: c.lineno)]
+    reads = [(lib.const(c.args[0]), lib.statement_of(c)) for c in sorted([c for c in ast.walk(fp) if isinstance(c, ast.Call) and isinstance(c.func, ast.Attribute) and c.func.attr == "read" and unparse(c.func.value) in rf], key=lambda c: c.lineno)]
+    dpp = [a.arg for a in dp.args.args]
+    if len(dpp) >= 4 and writes == [lib.role_text(None, "struct.pack('<I', self._currentFormatVersion())"), dpp[2], dpp[3]]:
         ctx.ok(R, dp, "dumpPickle writes version, digest, optionsDigest")
     else:
         ctx.finding(R, dp, "dumpPickle field order", f"dumpPickle writes {writes}; fromPickle expects version, digest, optionsDigest")
@@ -120,7 +152,7 @@ def check_layout(ctx, R="C20.layout"):
     for size, st in reads:
         if isinstance(st, ast.Assign) and isinstance(st.targets[0], ast.Name):
             v = st.targets[0].id
-            if f"len({v}) != {size}" in unparse(fp):
+            if any(isinstance(i, ast.If) and lib.ctext(i.test) == lib.ctext_of(f"len({v}) != {size}") and any(isinstance(x, ast.Raise) for x in i.body) for i in ast.walk(fp)):
                 ctx.ok(R, st, f"short read of `{v}` ({size} bytes) raises")
             else:
                 ctx.finding(R, st, f"unchecked read of {v}", f"fromPickle does not check that {size} bytes were read into `{v}`")
@@ -140,12 +172,26 @@ def check_reconnect(ctx, R="C20.reconnect"):
     ne = model.cls(RD, "NetworkElement")
     ss = model.func(RD, "Network.__setstate__")
     t = unparse(ss)
-    if "for elem in self.elements.values()" in t and "reconnect(elem)" in t and "elem.network = proxy" in t:
+    rc = next((f for f in ast.walk(ss) if isinstance(f, ast.FunctionDef) and f is not ss), None)
+    rcn = rc.name if rc is not None else "?"
+    proxies = set(lib.locals_assigned(ss, lambda v: unparse(v) == "weakref.proxy(self)"))
+    el_loops = [l for l in walk_local(ss) if isinstance(l, ast.For) and unparse(l.iter) == "self.elements.values()" and isinstance(l.target, ast.Name)]
+    if el_loops and any(unparse(x) == f"{rcn}({el_loops[0].target.id})" for x in el_loops[0].body) and any(isinstance(x, ast.Assign) and unparse(x.targets[0]) == f"{el_loops[0].target.id}.network" and unparse(x.value) in proxies for x in el_loops[0].body):
         ctx.ok(R, ss, "all network elements (self.elements) are reconnected and get their network back")
     else:
         ctx.finding(R, ss, "__setstate__ elements loop", "Network.__setstate__ no longer reconnects every element of self.elements and restores elem.network")
-    rc = next((f for f in ast.walk(ss) if isinstance(f, ast.FunctionDef) and f.name == "reconnect"), None)
-    if rc is not None and "isinstance(value, _ElementPlaceholder)" in unparse(rc) and "self.elements[value.uid]" in unparse(rc):
+    def _resolves(f):
+        """for k, v in <state>.items(): if isinstance(v, _ElementPlaceholder): <state>[k] = self.elements[v.uid]"""
+        for l in ast.walk(f):
+            if isinstance(l, ast.For) and isinstance(l.target, ast.Tuple) and len(l.target.elts) == 2 and unparse(l.iter).endswith(".items()"):
+                k, v = (unparse(e) for e in l.target.elts)
+                st_ = unparse(l.iter)[: -len(".items()")]
+                for i in ast.walk(l):
+                    if isinstance(i, ast.If) and unparse(i.test) == f"isinstance({v}, _ElementPlaceholder)" and any(unparse(x) == f"{st_}[{k}] = self.elements[{v}.uid]" for x in i.body):
+                        return True
+        return False
+
+    if rc is not None and _resolves(rc):
         ctx.ok(R, rc, "a placeholder is resolved to self.elements[uid]")
     else:
         ctx.finding(R, ss, "reconnect body", "reconnect() no longer resolves _ElementPlaceholder values through self.elements[uid]")
@@ -174,7 +220,19 @@ def check_reconnect(ctx, R="C20.reconnect"):
             else:
                 ctx.finding(R, ss, f"{c.name} in {h.name}.{field} not reconnected", f"Network.__setstate__ does not visit {h.name}.{field} (holding {c.name} objects) through any of Network.{nf}: after loading a cache their links stay placeholders")
     gs = base.methods.get("__getstate__")
-    if gs is not None and "isinstance(value, NetworkElement)" in unparse(gs) and "_ElementPlaceholder(value.uid)" in unparse(gs) and "state.copy()" in unparse(gs):
+    def _replaces(f):
+        for l in ast.walk(f):
+            if isinstance(l, ast.For) and isinstance(l.target, ast.Tuple) and len(l.target.elts) == 2 and unparse(l.iter).endswith(".items()"):
+                k, v = (unparse(e) for e in l.target.elts)
+                st_ = unparse(l.iter)[: -len(".items()")]
+                rets_ = [r for r in lib.returns_of(f) if r.value is not None and unparse(r.value) == st_]
+                copies = any(isinstance(a, ast.Assign) and unparse(a.targets[0]) == st_ and unparse(a.value).endswith(".copy()") for a in ast.walk(f))
+                for i in ast.walk(l):
+                    if isinstance(i, ast.If) and unparse(i.test) == f"isinstance({v}, NetworkElement)" and any(unparse(x) == f"{st_}[{k}] = _ElementPlaceholder({v}.uid)" for x in i.body):
+                        return bool(rets_) and copies
+        return False
+
+    if gs is not None and _replaces(gs):
         ctx.ok(R, gs, "__getstate__ replaces direct NetworkElement values by placeholders on a copy of the state")
     else:
         ctx.finding(R, gs or base.node, "__getstate__", "_ElementReferencer.__getstate__ no longer replaces NetworkElement attribute values by _ElementPlaceholder(uid) on a copied state")
